@@ -35,6 +35,7 @@ RULE_DOC = {
     'R11': 'tail expression `E.iter().find(|v| C).map(|w| R)` -> `for i in 0..E.len() { let v = &E[i]; if C { return Some(R) } } None` (std: first element accepted by the predicate; closure bodies verbatim)',
     'R12': 'tail expression `E.iter().any(|v| C)` -> `for i in 0..E.len() { let v = &E[i]; if C { return true } } false`',
     'R13': '`for x in &mut E {` -> `for i in 0..E.len() { let x = &mut E[i];` (std: iter_mut visits the elements in index order)',
+    'R15': '`let v: Vec<T> = E.windows(2).map(|w| F).collect();` -> `let mut v = Vec::new(); for i in 1..E.len() { let w = &E[i - 1..i + 1]; v.push(F); }` (std: the adjacent pairs in order; F verbatim)',
     'R14': '`let n = E.iter().position(|v| C)?;` -> loop remembering the first index accepted by C, then `let n = found?;`',
     'R10': 'a closure passed to Vec::retain gets a parameter type, a named bool result and braces (`|t| E` -> `|t: T| -> (r: bool) { E }`) so that requires/ensures can be attached; the body is verbatim',
     'R7': '`x op= e` / method sugar spelled out where Verus lacks the operator form (recorded per site)',
@@ -325,6 +326,27 @@ class Piece:
                % (var, ind, recv, ind, fm.group(1), recv, ind, var, fm.group(2).strip(), var, ind, ind, var, var))
         self.text = text[:m.start()] + new + text[end + 2:]
         self._fired('R14', 'iter().position(..)? -> loop remembering the first accepted index')
+        return self
+
+    def R15(self, var):
+        """`let V: Vec<T> = E.windows(2).map(|w| F).collect();` -> `let mut V = Vec::new(); for i in 1..E.len() { let w = &E[i - 1..i + 1]; V.push(F); }`"""
+        text = self.text
+        code = scan(text)
+        m = re.search(r'let %s: (Vec<[\w:]+>) = ([\w\.]+?)(?=\s*\.windows\(2\))' % re.escape(var), text)
+        if not m:
+            raise LostAnchor('rule R15 in %s: `let %s: Vec<_> = <slice>.windows(2)...` not found' % (self.label, var))
+        calls, end = self._chain(text, code, m.end())
+        names = [c[0] for c in calls]
+        if names != ['windows', 'map', 'collect'] or calls[0][1].strip() != '2' or text[end:end + 1] != ';':
+            raise LostAnchor('rule R15 in %s: chain is %s, expected windows(2)/map/collect' % (self.label, names))
+        fm = re.match(r'\s*\|(\w+)\|\s*(.*)$', calls[1][1], re.S)
+        if not fm:
+            raise LostAnchor('rule R15 in %s: closure shape' % self.label)
+        ind = re.match(r'[ \t]*', text[_line_start(text, m.start()):]).group(0)
+        new = ('let mut %s: %s = Vec::new();\n%sfor i__ in 1..%s.len() {\n%s    let %s = &%s[i__ - 1..i__ + 1];\n%s    %s.push(%s);\n%s}'
+               % (var, m.group(1), ind, m.group(2), ind, fm.group(1), m.group(2), ind, var, fm.group(2).strip(), ind))
+        self.text = text[:m.start()] + new + text[end + 1:]
+        self._fired('R15', 'windows(2).map(..).collect() -> loop over adjacent pairs')
         return self
 
     def R10(self, method, param_ty, annotate):
